@@ -9,6 +9,7 @@ import NV.C04.Lemmas
 import NV.C04.LemmasDepth
 import NV.C04.LemmasCost
 import NV.C04.LemmasStack
+import NV.C04.LemmasFresh
 
 namespace NV.C04
 
@@ -39,13 +40,56 @@ theorem exec_call_ok_unwound (cfg : Cfg) (fuel : Nat) (ctx : Ctx) (l : Nat) (b :
     subst h
     exact ⟨rfl, rfl⟩
 
+/-- **eval_completes_below_budget**: an evaluation that returns to the driver normally executed fewer instructions than
+    its budget - nothing can complete after an expiry: no catch frame (limit_error_not_swallowed), and a safe apply that
+    stops the error leaves its caller one tick, which the caller's next instruction uses up -/
+theorem eval_completes_below_budget (cfg : Cfg) (hpos : 0 < cfg.maxCost) (fuel : Nat) (sh : Sh)
+    (h : (evaluate cfg fuel sh).1 = .ok) : ((evaluate cfg fuel sh).2.ticks : Int) < cfg.maxCost := by
+  generalize hr : evaluate cfg fuel sh = r at h
+  obtain ⟨o, s'⟩ := r
+  simp only at h
+  subst h
+  show (s'.ticks : Int) < cfg.maxCost
+  have hf0 : Fresh cfg.maxCost (St.start cfg) := Or.inl ⟨by simp [phi, St.start], hpos⟩
+  cases fuel with
+  | zero => simp [evaluate, exec] at hr
+  | succ f =>
+    simp only [evaluate, exec] at hr
+    obtain ⟨s1, h1, hr⟩ := seqM_ok_inv hr
+    obtain ⟨s2, h2, hr⟩ := seqM_ok_inv hr
+    obtain ⟨s3, h3, hr⟩ := seqM_ok_inv hr
+    obtain ⟨s4, h4, hr⟩ := seqM_ok_inv hr
+    obtain ⟨s5, h5, hr⟩ := seqM_ok_inv hr
+    have f1 : Fresh cfg.maxCost s1 := by
+      have := (NE_pushFrame cfg.maxCost cfg .driver (St.start cfg) hf0).1; rw [h1] at this; exact this rfl
+    have f2 : Fresh cfg.maxCost s2 := by
+      have := (NE_pushChecked cfg.maxCost cfg .driver 0 s1 f1).1; rw [h2] at this; exact this rfl
+    have f3 : Fresh cfg.maxCost s3 := by
+      have := (NE_ticksN cfg.maxCost cfg .driver callTicks s2 f2).1; rw [h3] at this; exact this rfl
+    have f4 : Fresh cfg.maxCost s4 := by
+      have := (exec_NE cfg.maxCost cfg f .driver sh s3 f3).1; rw [h4] at this; exact this rfl
+    obtain ⟨t1, t2, t3⟩ := tick_ok_inv h5
+    injection hr with _ hr
+    subst hr
+    show ((leave s5 (St.start cfg).depth (St.start cfg).sp).ticks : Int) < cfg.maxCost
+    have : (leave s5 (St.start cfg).depth (St.start cfg).sp).ticks = s5.ticks := rfl
+    rw [this, t2]
+    rcases f4 with ⟨p1, p2⟩ | p1
+    · unfold phi at p1; omega
+    · omega
+
+example : (evaluate { maxCost := 50, maxDepth := 20, stackSize := 100, handlerCatches := false } 1000
+    (.seq (.work 10) (.catch_ .err))).1 = .ok := by decide
+
 /-- the numbers the harness reports for a run: indices are heights minus one; when an error reached the driver-level
     context, restore_context there unwinds both stacks -/
 def obsOf (cfg : Cfg) (r : Out × St) : Obs :=
   { ticks := r.2.ticks, maxcsp := r.2.maxDepth - 1, maxsp := r.2.maxSp - 1,
     csp := (match r.1 with | .ok => r.2.depth - 1 | _ => -1),
     sp := (match r.1 with | .ok => r.2.sp - 1 | _ => -1),
-    maxtouch := if r.2.maxSp - 1 ≥ cfg.stackSize then r.2.maxSp - 1 else -1 }
+    maxtouch := if r.2.maxSp - 1 ≥ cfg.stackSize then r.2.maxSp - 1 else -1,
+    cost0 := cfg.maxCost,
+    completed := (match r.1 with | .ok => true | _ => false) }
 
 /-- **model_satisfies_spec** (top theorem, all clauses of the oracle that speak about one evaluation).  `lim` is what the
     judge collects from the case lines: the budget as configured (clamped), MaxCallDepth, StackSize, and the number of
@@ -101,7 +145,15 @@ theorem model_satisfies_spec (raw : Int) (cfg : Cfg) (hcfg : cfg.maxCost = clamp
       omega
     | raised k => simp
     | fuel => simp
-  rw [if_neg c1, if_neg c2, if_neg c3, if_neg c4, if_neg c5]
+  have c6 : ¬ ((match r.1 with | .ok => true | _ => false) = true ∧ cfg.maxCost > 0 ∧ (r.2.ticks : Int) ≥ cfg.maxCost) := by
+    intro ⟨hc, _, ht⟩
+    have hok : r.1 = .ok := by
+      obtain ⟨o, s'⟩ := r
+      cases o <;> simp at hc ⊢
+    have := eval_completes_below_budget cfg hcpos fuel sh (by rw [hr]; exact hok)
+    rw [hr] at this
+    omega
+  rw [if_neg c1, if_neg c2, if_neg c3, if_neg c4, if_neg c5, if_neg c6]
   rfl
 
 example : (6 : Int) ≤ 300 ∧ ((Sh.seq (.safe .spin) (.catch_ (.catch_ .spin))).safeWeight : Int) ≤ (handlerAllowance : Int) * (2 + 2) := by
